@@ -21,4 +21,20 @@ PROPS = {
     ),
 }
 
+PROPS["C19"] = dict(
+    lean=["SqlVerif.Props.C19"],
+    namespaces=["SqlVerif.Props.C19"],
+    required=["SqlVerif.Props.C19.same_field_set", "SqlVerif.Props.C19.build_map_identity",
+              "SqlVerif.Props.C19.tryfrom_map_identity", "SqlVerif.Props.C19.setters_simple",
+              "SqlVerif.Props.C19.wildcard_arm_is_err", "SqlVerif.Props.C19.builder_roundtrip",
+              "SqlVerif.Props.C19.builder_roundtrip'", "SqlVerif.Props.C19.setter_local"],
+    corr=[],
+    oracle=["C19"],
+    level_text="Proved in Lean for records over any value type: two copy-every-field conversions whose field maps are the identity compose to the identity, and a setter changes exactly its field. The field maps of build(), try_from and every setter, the field sets of both structs and the shape of the `_ => Err` arm are re-extracted from the Rust source with syn on every run and the identity/shape side conditions are re-decided by the kernel, so the theorem is about the code as it is now (translator route, no hand-written model of the builder). Backed by the real round trip and generated per-setter tests on every parsed CREATE TABLE of the corpus.",
+    level_note="Trusted: Lean kernel; the syn extraction (struct literals/patterns read syntactically; rustc guarantees each field occurs exactly once in a struct literal); Rust move semantics (copying a field does not alter it). The parser constructing CREATE TABLE through the builder is covered only by the oracle.",
+    technique="Lean 4 generic record theorem + kernel-decided side conditions on field maps regenerated from source (syn)",
+    trusted_base=["translator/builder.rs reads build(), try_from and setters syntactically"],
+    assumptions=["a struct literal/pattern without `..` mentions every field exactly once (rustc)"],
+)
+
 NOT_CLAIMED = {}
